@@ -6,7 +6,7 @@ use std::collections::{BTreeMap, BTreeSet, HashSet};
 use std::fmt::Debug;
 use std::hash::{Hash, Hasher};
 use std::path::{Path, PathBuf};
-use std::time::Instant;
+use std::time::{Duration, Instant};
 
 use proptest::strategy::{Strategy, ValueTree};
 use proptest::test_runner::{Config, RngAlgorithm, TestRng, TestRunner};
@@ -127,6 +127,11 @@ pub trait Engine: Sync {
     /// tag stored in replay files
     fn name(&self) -> &'static str;
     fn run_case(&self, case: &Self::Case) -> CaseReport;
+    /// Engines on real sockets and the real clock: a failing case can cost seconds (guards, repeated
+    /// runs), so shrinking gets a wall-clock budget and a shard stops at its first violation.
+    fn real_time(&self) -> bool {
+        false
+    }
 }
 
 // ------------------------------------------------------------------------------------------------
@@ -393,9 +398,10 @@ where
             let mut best_case = case.clone();
             let mut best_v = (*first).clone();
             let mut iters = 0u32;
+            let shrink_started = Instant::now();
             if tree.simplify() {
                 loop {
-                    if iters >= max_shrink {
+                    if iters >= max_shrink || (engine.real_time() && shrink_started.elapsed() > Duration::from_secs(25)) {
                         break;
                     }
                     iters += 1;
@@ -423,7 +429,7 @@ where
                 serde_json::to_value(&best_case).unwrap_or(Value::Null),
                 engine.name().to_string(),
             ));
-            if out.violations.len() >= 4 {
+            if out.violations.len() >= 4 || engine.real_time() {
                 break;
             }
         }
@@ -628,6 +634,10 @@ pub fn finish(ctx: &Ctx, started: Instant, out: Outcome, fin: Finish) -> i32 {
             let got = class_fracs.get(*c).copied().unwrap_or(0.0);
             if got < *min {
                 vacuity.push(format!("class {c} fraction {got} < required {min}"));
+            }
+            if std::env::var_os("VERIF_SHOW_MARGINS").is_some() {
+                // auditing aid: how far each required class is above its vacuity threshold
+                eprintln!("MARGIN {} {c} got={got} min={min} ratio={:.2}", ctx.prop, got / min.max(1e-9));
             }
         }
     }
